@@ -29,7 +29,7 @@ MIN_NONTRIVIAL = {"quick": 150, "thorough": 3000}
 SHARDS = {"quick": 4, "thorough": 16}
 GENERATOR = {"M": "10^U(-6, 9)", "tau": "10^U(-3, 5)", "window_end/tau": "U(0.6, 3)", "samples": "50..400"}
 ASSUMPTIONS = [
-    "round trip: recovered to 1e-3 relative; closed-form optimum for a supplied tau to 1e-6 relative",
+    "round trip: recovered to 1e-3 relative; closed-form optimum for a supplied tau to 1e-6 relative (1e-4 when the optimum lies on a bound, which the TRF optimiser only approaches)",
     "known finding K3 is recognised by mechanism: data magnitude < 1e-2 AND the same problem rescaled to unit magnitude (through the real fit) round-trips",
     "bounds with an infinite lower limit and a guess above the finite upper one make curve_fit raise: no fitted value exists, no claim is made, the count is reported",
 ]
@@ -234,7 +234,10 @@ def run_case(ck, desc):
         if not (lo <= fo.M_ <= hi):
             ck.violation("fitted-M-inside-bounds", {"M_": fo.M_, "bounds": [lo, hi]}, desc)
         # K3 also affects the one-parameter fit; classify by the same mechanism
-        if not ck.margin("M = bounded least-squares optimum", abs(fo.M_ - opt) / abs(opt), 1e-6):
+        # interior optimum: 1e-6; optimum on a bound: the trust-region-reflective optimiser only
+        # approaches the bound (observed 2.4e-6 short of it with `gtol` satisfied): 1e-4
+        on_bound = opt in (lo, hi)
+        if not ck.margin("M = bounded least-squares optimum" + (" (bound active)" if on_bound else ""), abs(fo.M_ - opt) / abs(opt), 1e-4 if on_bound else 1e-6):
             known = _k3(desc, f, t, yn, tau_s=desc["tau_s"], Mb=(lo, hi))
             ck.violation("bounded-least-squares-optimum", {"M_": fo.M_, "closed_form": opt, "mesg": calls[-1].get("mesg"), "nfev": calls[-1].get("nfev")}, desc, known_key=known)
         return True, {"M_": fo.M_, "closed_form": opt}
